@@ -196,10 +196,13 @@ func (s *Stash) clear(start, end int) {
 			end = len(s.forms) - 1
 		}
 		if start <= end {
-			newEnd := len(s.forms) - (end - start) - 1
-			copy(s.forms[:start], s.forms[end:])
+			// The start and end count from the most recent form, the last
+			// in the slice. Keep the forms older than end and the forms
+			// more recent than start.
+			lo := len(s.forms) - 1 - end
+			newEnd := lo + copy(s.forms[lo:], s.forms[len(s.forms)-start:])
 			// Make sure references are removed so GC can collect them.
-			for i := end + 1; i < len(s.forms); i++ {
+			for i := newEnd; i < len(s.forms); i++ {
 				s.forms[i] = nil
 			}
 			s.forms = s.forms[:newEnd]
